@@ -266,6 +266,11 @@ func (v *V) run() {
 		st.ghost[g.Name] = Val{T: gt, S: iv.S}
 	}
 	v.entry = st.clone()
+	// ghost assignments at entry (after the entry state is recorded: old() sees the values before them)
+	for _, a := range v.spec.AtEntry {
+		ge := v.specEnv(st, v.entry, fr, scope, spos)
+		v.assignGhost(ge, a.Target, ge.eval(a.C.Expr))
+	}
 	// vacuity guard: the precondition must be satisfiable
 	v.addObl(st, v.fi.name()+"/pre-sat#0", "pre-sat", "false", fi.body.Pos(), "precondition is satisfiable (vacuity guard)", "sat")
 	outs := v.execBlock(fr, fi.body.List, st)
@@ -1232,6 +1237,10 @@ func (v *V) atStmts(e *Env, call *ast.CallExpr, after bool, bind map[string]Val,
 				}
 				v.addObl(e.st, nm, "call-site", goal, call.Pos(), "at "+name+": "+a.C.Src, "unsat")
 			}
+			// once proved (it is an obligation of its own), the asserted fact may be used
+			se2 := *se
+			se2.proving = false
+			e.st.assume(v.evalClause(&se2, a.C))
 		case "ghost":
 			val := se.eval(a.C.Expr)
 			v.assignGhost(se, a.Target, val)
